@@ -525,6 +525,62 @@ def run_siblings(ctx):
         ctx.case(("sibling", name))
     ctx.sample({"classes": [s[0] for s in scripts]})
 
+    # the same for objects that come out of a constructor path *with content*: two results of the same call with equal
+    # arguments, one of them then changed in place as deeply as its public attributes reach
+    def churn(obj):
+        for b in getattr(obj, "bars", [obj] if hasattr(obj, "bar") else []):
+            for e in b.bar:
+                if e[2] is not None:
+                    churn(e[2])
+            b.transpose("2")
+        if hasattr(obj, "notes") and not hasattr(obj, "bars"):
+            obj.transpose("3"), obj.augment(), obj.add_note("B", 7), obj.remove_note(obj.notes[0])
+            for n in obj.notes:
+                n.set_velocity(1), n.set_channel(2)
+                n.name, n.octave = "F#", 1
+        for t in getattr(obj, "tracks", []):
+            churn(t)
+
+    def twice(name, factory):
+        w = {"built_by": name}
+        try:
+            A, B = factory(), factory()
+            before = deep_state(B)
+            churn(A)
+        except Exception as e:
+            ctx.unsure("cannot build / change %s: %r" % (name, e))
+            return
+        ctx.check("siblings: operating on one object leaves a separately created object unchanged", deep_state(B) == before, w,
+                  before, deep_state(B), mechanism="built-sibling:" + name)
+        C = factory()
+        ctx.check("siblings: an object created afterwards starts from the same state", deep_state(C) == before, w, before,
+                  deep_state(C), mechanism="built-fresh:" + name)
+        ctx.case(("built-sibling", name))
+
+    def comp_from_chords():
+        c = Composition()
+        c.add_track(Track().from_chords(["F", "Dm7"], 1))
+        c.add_track(Track().from_chords(["F", "Dm7"], 1))
+        return c
+    twice("Track.from_chords", lambda: Track().from_chords(["C", "Am", ["G7", "C"], "Am"], 1))
+    twice("Track.from_chords(twice the same shorthand)", lambda: Track().from_chords(["E7", "E7", "E7", "E7"], 2))
+    twice("Composition of from_chords tracks", comp_from_chords)
+    twice("NoteContainer.from_chord_shorthand", lambda: NoteContainer().from_chord_shorthand("Am7"))
+    twice("NoteContainer.from_chord", lambda: NoteContainer().from_chord("Gsus4"))
+    twice("NoteContainer.from_progression_shorthand", lambda: NoteContainer().from_progression_shorthand("VI7", "C"))
+    twice("NoteContainer.from_interval_shorthand", lambda: NoteContainer().from_interval_shorthand("C", "b7"))
+    twice("NoteContainer(list of names)", lambda: NoteContainer(["C", "E", "G"]))
+    twice("NoteContainer(name)", lambda: NoteContainer("A"))
+    twice("Bar.place_notes(list)", lambda: bar_with(4, 4))
+    twice("Track.add_notes(names)", lambda: _track_names(Track))
+
+
+def _track_names(Track):
+    t = Track()
+    t.add_notes(["C", "E"], 4)
+    t.add_notes("G", 2)
+    return t
+
 
 def _mtrack(MidiTrack):
     from mingus.containers import Note
